@@ -191,6 +191,7 @@ func (s *Syncer) syncLoop(ctx context.Context, env *lmdb.Env, r *receiver.Receiv
 		// snapshot when local changes are detected.
 		// TODO: LSE: Maybe also add MaxConsecutiveUpdateLoads, or base this on time?
 		nLoads := 0
+		verifYield(s, "loop.top")
 	loadReadySnapshotsLoop:
 		for {
 			instance, update := r.Next()
@@ -283,6 +284,7 @@ func (s *Syncer) syncLoop(ctx context.Context, env *lmdb.Env, r *receiver.Receiv
 		}
 
 		// Check for change in local LMDB
+		verifYield(s, "loop.beforeInfo")
 		info, err := env.Info()
 		if err != nil {
 			return err
@@ -312,6 +314,7 @@ func (s *Syncer) syncLoop(ctx context.Context, env *lmdb.Env, r *receiver.Receiv
 
 				// Store snapshot
 				if hasDataAtStart || lastSyncedTxnID > 0 {
+					verifYield(s, "loop.beforeSend")
 					actualTxnID, err := s.SendOnce(ctx, env)
 					if err != nil {
 						return err
@@ -339,6 +342,7 @@ func (s *Syncer) syncLoop(ctx context.Context, env *lmdb.Env, r *receiver.Receiv
 		}
 
 		// Sleep before next check for snapshots and local changes
+		verifYield(s, "loop.sleep")
 		if err := utils.SleepContext(ctx, s.c.LMDBPollInterval); err != nil {
 			return err
 		}
@@ -521,6 +525,7 @@ func (s *Syncer) LoadOnce(ctx context.Context, env *lmdb.Env, instance string, u
 		return 0, false, err
 	}
 	tLoaded := time.Now()
+	verifYield(s, "load.afterTxn")
 
 	// If no actual changes were made, LMDB will not record the transaction
 	// and reuse the ID the next time, so we need to adjust the txnID we return.
